@@ -12,6 +12,10 @@ Case (JSON):
     ["iadd", g, via, src]  ["isub", g, via, src]   src = ["list", ts] | ["gen", ts] | ["ext", ts] (Graph on another store)
                                                         | ["graph", h, via_h] (graph of the same store, may be g itself)
     ["bin", op, g, via, h, via_h]        op = add | sub | mul | xor      (observed: the new graph; operands unchanged)
+    store API called directly on the shared `Memory` (contexts = the Graph objects of graphs 0..2):
+    ["st_add", c, via, s, p, o]          store.add(triple, graph_obj)
+    ["st_remove", c|None, via, s|None, p|None, o|None]     store.remove(pattern, graph_obj | None)
+    ["st_addg", c, via]  ["st_rmg", c, via]                store.add_graph / store.remove_graph
     ["iopen", k, g, via, s|None, p|None, o|None]   create generator k = g.triples(pattern)
     ["istep", k, n]                      n × next(generator k)   (the generator "begins" at its first next())
   store = "simple": two `SimpleMemory` stores i ∈ {0,1}, one graph each (identifier 50+i), ops
@@ -43,7 +47,10 @@ CASES = {"quick": 2000, "thorough": N_ENUM * 2 + 10000, "search": 6000}
 RULE = ("random histories (1-24 ops) of add/addN/remove(wildcards)/set/+=/-=/+ - * ^ through Graph objects (primary and "
         "equal-identifier twin) over one shared Memory (3 graphs) or two SimpleMemory stores, terms drawn from a vocabulary "
         "with falsy and look-alike terms in every position, up to 3 open triples() generators stepped between mutations; "
-        "after every op len / list(g) / 7 wild-carded shapes / membership are compared with the model and with a set oracle. "
+        "a further stream calls the Memory API directly (store.add, store.remove(pattern, graph | None), add_graph, remove_graph) "
+        "interleaved with Graph calls; after every op len / list(g) / 7 wild-carded shapes / membership per graph and the store API "
+        "(store.triples(pattern, None | graph) with the graphs reported per triple, len(store), store.contexts(), store.contexts(t)) "
+        "are compared with the model and with a set-of-quads + set-of-graph-keys oracle. "
         "non-trivial = some remove deleted a triple and (mem) some triple was in two graphs at once; distinct = distinct op lists")
 ASSUMPTIONS = ["quoted statements (QuotedGraph / formula-aware add) are outside the property; quoted=False everywhere",
                "single thread; event dispatch of Store.add/remove has no subscribers",
@@ -59,6 +66,7 @@ assert all(a != b and not (a == b) for a, b in itertools.combinations(TERMS, 2))
 TERM_ID = {t: i for i, t in enumerate(TERMS)}
 GIDS = {0: URIRef("http://e/g"), 1: BNode("http://e/g"), 2: URIRef("http://e/h"),
         50: URIRef("http://e/s0"), 51: BNode("http://e/s0")}
+KEY_OF = {v: k for k, v in GIDS.items()}
 SHAPES = [m for m in range(1, 8)]  # bit 1: s wild, bit 2: p wild, bit 4: o wild (0 = fully bound, 7 = all wild)
 
 
@@ -156,12 +164,48 @@ def gen_case(rng, tier, i):
                     ops.append(["remove", g, via] + pat())
                 elif r < 0.9:
                     ops.append(["add", g, via] + pick())
-                elif r < 0.95:
+                elif r < 0.93:
                     ops.append(["set", g, via] + pick())
+                elif r < 0.96:
+                    ops.append(["st_remove", None, via] + pick())
+                elif r < 0.98:
+                    ops.append(["st_rmg", g, via])
                 else:
                     ops.append(["isub", g, via, ["graph", rng.choice(G), 0]])
         for k in range(nit):
             ops.append(["istep", k, 50])
+    elif store == "mem" and rng.random() < 0.45:
+        # store-API stream: the Memory instance is driven directly, interleaved with Graph-level calls
+        G = [0, 1, 2]
+        for _ in range(n):
+            g, via, r = rng.choice(G), rng.randint(0, 1), rng.random()
+            if r < 0.30:
+                t = pick()
+                ops.append(["st_add", g, via] + t)
+                if rng.random() < 0.4:
+                    ops.append(["st_add", rng.choice(G), rng.randint(0, 1)] + t)
+            elif r < 0.42:
+                ops.append(["st_remove", None, via] + pat())
+            elif r < 0.55:
+                ops.append(["st_remove", g, via] + pat())
+            elif r < 0.60:
+                ops.append(["st_addg", g, via])
+            elif r < 0.68:
+                ops.append(["st_rmg", g, via])
+            elif r < 0.78:
+                ops.append(["add", g, via] + pick())
+            elif r < 0.86:
+                ops.append(["remove", g, via] + pat())
+            elif r < 0.89:
+                ops.append(["set", g, via] + pick())
+            elif r < 0.93:
+                qs = [pick() + [g if rng.random() < 0.7 else rng.choice(G), rng.choice(["obj", "twin", "ident"])]
+                      for _ in range(rng.randint(0, 3))]
+                ops.append(["addN", g, via, qs])
+            else:
+                kind = rng.choice(["list", "gen", "graph"])
+                src = ["graph", rng.choice(G), rng.randint(0, 1)] if kind == "graph" else [kind, tlist(3)]
+                ops.append([rng.choice(["iadd", "isub"]), g, via, src])
     elif store == "mem":
         G = [0, 1, 2]
         first = None
@@ -257,11 +301,20 @@ def _obs_plan(case, k):
             plan.append(("tri", g, pt))
         for t in pool:
             plan.append(("has", g, t))
-    if case["store"] == "mem":  # the store's union view (context None): len(store), store.triples(pattern, None)
+    if case["store"] == "mem":
+        # the store API itself: len(store), store.triples(pattern, None | graph) with the graphs reported per
+        # triple (8 shapes for None, 3 rotating shapes for one graph), store.contexts(), store.contexts(t | pattern)
         plan.append(("ulen", None, None))
         for pt in _shape_pats(probe):
-            plan.append(("utri", None, pt))
-        plan.append(("utri", None, list(probe)))
+            plan.append(("mtri", None, pt))
+        plan.append(("mtri", None, list(probe)))
+        gk = k % 3
+        for m in (k % 8, (k + 3) % 8, 7):
+            plan.append(("mtri", gk, [None if m & 1 else probe[0], None if m & 2 else probe[1], None if m & 4 else probe[2]]))
+        plan.append(("ctxs", None, [None, None, None]))
+        for t in pool[:3]:
+            plan.append(("ctxs", None, list(t)))
+        plan.append(("ctxs", None, [probe[0], None, probe[2]]))
     return plan
 
 
@@ -293,6 +346,14 @@ def _mut_line(op):
         return f"{k} {op[1]} " + " ".join(f"{t[0]} {t[1]} {t[2]}" for t in src[1])
     if k == "bin":
         return f"bin {op[1]} {op[2]} {op[4]}"
+    if k == "st_add":
+        return f"madd {op[1]} {op[3]} {op[4]} {op[5]}"
+    if k == "st_remove":
+        return f"mremove {_w(op[1])} " + " ".join(_w(x) for x in op[3:6])
+    if k == "st_addg":
+        return f"addgraph {op[1]}"
+    if k == "st_rmg":
+        return f"rmgraph {op[1]}"
     if k in ("sadd", "sremove", "sset"):
         return f"{k} {op[1]} " + " ".join(_w(x) for x in op[3:6])
     if k == "saddN":
@@ -315,8 +376,10 @@ def _obs_lines(case, k):
             out.append(f"{pre}len {g}")
         elif kind == "ulen":
             out.append("ulen")
-        elif kind == "utri":
-            out.append("utri " + " ".join(_w(v) for v in x))
+        elif kind == "mtri":
+            out.append(f"mtri {_w(g)} " + " ".join(_w(v) for v in x))
+        elif kind == "ctxs":
+            out.append("ctxs " + " ".join(_w(v) for v in x))
         else:
             out.append(f"{pre}{kind} {g} " + " ".join(_w(v) for v in x))
     return out
@@ -345,10 +408,12 @@ class _World:
             self.mem = Memory()
             self.objs = {g: [Graph(self.mem, GIDS[g]), Graph(self.mem, _fresh_ident(g))] for g in (0, 1, 2)}
             self.sets = {g: set() for g in (0, 1, 2)}
+            self.keys = set()   # registered graphs (oracle for store.contexts())
         else:
             self.stores = [SimpleMemory(), SimpleMemory()]
             self.objs = {i: [Graph(self.stores[i], GIDS[50 + i]), Graph(self.stores[i], _fresh_ident(50 + i))] for i in (0, 1)}
             self.sets = {i: set() for i in (0, 1)}
+            self.keys = set()
 
     def gid(self, g):
         return g if self.kind == "mem" else 50 + g
@@ -406,6 +471,27 @@ def _apply(w, op, stats):
         g, via, t = op[1], op[2], tuple(op[3:6])
         w.objs[g][via].add(_tt(t))
         w.sets[g].add(t)
+        w.keys.add(g)
+    elif k == "st_add":
+        g, via, t = op[1], op[2], tuple(op[3:6])
+        w.mem.add(_tt(t), w.objs[g][via])
+        w.sets[g].add(t)
+        w.keys.add(g)
+    elif k == "st_remove":
+        g, via, pt = op[1], op[2], op[3:6]
+        w.mem.remove(tuple(_term(x) for x in pt), None if g is None else w.objs[g][via])
+        for h in ([g] if g is not None else list(w.sets)):
+            gone = {t for t in w.sets[h] if _matches(pt, t)}
+            stats["removed"] = stats.get("removed", 0) + len(gone)
+            w.sets[h] -= gone
+        stats["st_rm_" + ("all" if g is None else "graph")] = 1
+    elif k == "st_addg":
+        w.mem.add_graph(w.objs[op[1]][op[2]])
+        w.keys.add(op[1])
+    elif k == "st_rmg":
+        w.mem.remove_graph(w.objs[op[1]][op[2]])
+        w.sets[op[1]] = set()
+        w.keys.discard(op[1])
     elif k in ("remove", "sremove"):
         g, via, pt = op[1], op[2], op[3:6]
         w.objs[g][via].remove(tuple(_term(x) for x in pt))
@@ -417,6 +503,7 @@ def _apply(w, op, stats):
         g, via, t = op[1], op[2], tuple(op[3:6])
         w.objs[g][via].set(_tt(t))
         w.sets[g] = {x for x in w.sets[g] if not (x[0] == t[0] and x[1] == t[1])} | {t}
+        w.keys.add(g)
     elif k in ("addN", "saddN"):
         g, via, qs = op[1], op[2], op[3]
         w.objs[g][via].addN([_tt(q[:3]) + (_quad_ctx(w, g, via, q[3], q[4]),) for q in qs])
@@ -424,6 +511,7 @@ def _apply(w, op, stats):
             # the quad belongs to this graph iff its context is a Graph denoting it (same identifier)
             if q[4] != "ident" and q[3] == w.gid(g):
                 w.sets[g].add(tuple(q[:3]))
+                w.keys.add(g)   # every store.add registers its context
             stats["quad_" + q[4]] = stats.get("quad_" + q[4], 0) + 1
     elif k in ("iadd", "siadd"):
         g, via, src = op[1], op[2], op[3]
@@ -431,6 +519,8 @@ def _apply(w, op, stats):
         gg = w.objs[g][via]
         gg += obj
         w.sets[g] |= set(ts)
+        if ts:
+            w.keys.add(g)
         stats["src_" + src[0]] = stats.get("src_" + src[0], 0) + 1
     elif k in ("isub", "sisub"):
         g, via, src = op[1], op[2], op[3]
@@ -463,22 +553,45 @@ def _apply(w, op, stats):
 
 def _observe(w, case, k, obs, viol):
     for kind, g, x in _obs_plan(case, k):
-        if kind in ("ulen", "utri"):
+        if kind in ("ulen", "mtri", "ctxs"):
             U = set().union(*w.sets.values())
             try:
-                if kind == "ulen":
+                if kind == "ctxs":
+                    if x == [None, None, None]:
+                        got = [KEY_OF[c.identifier] for c in (w.mem.contexts() if k % 2 else w.mem.contexts((None, None, None)))]
+                        want = set(w.keys)
+                    else:
+                        got = [KEY_OF[c.identifier] for c in w.mem.contexts(tuple(_term(v) for v in x))]
+                        want = {h for h in w.sets if tuple(x) in w.sets[h]} if None not in x else set()
+                    obs.append(",".join(map(str, sorted(got))))
+                    if len(got) != len(set(got)):
+                        viol.append(f"dup: after op {k} store.contexts({x}) lists a graph twice")
+                    elif set(got) != want:
+                        viol.append(f"contexts: after op {k} store.contexts({x}) gave {sorted(got)} expected {sorted(want)}")
+                elif kind == "mtri":
+                    ctx = None if g is None else w.objs[g][(k + g) % 2]
+                    got = [(_ids(t), sorted(KEY_OF[c.identifier] for c in cg))
+                           for t, cg in w.mem.triples(tuple(_term(v) for v in x), ctx)]
+                    obs.append(" ".join(",".join(map(str, t)) + "@" + "+".join(map(str, ks)) for t, ks in sorted(got)))
+                    src = U if g is None else w.sets[g]
+                    want = {t for t in src if _matches(x, t)}
+                    ts = [t for t, _ in got]
+                    if len(ts) != len(set(ts)):
+                        viol.append(f"dup: after op {k} store.triples({x}, {g}) yields a triple twice")
+                    elif set(ts) != want:
+                        viol.append(f"store-pattern: after op {k} store.triples({x}, {g}) gave {sorted(ts)} expected {sorted(want)}")
+                    else:
+                        for t, ks in got:
+                            wk = sorted(h for h in w.sets if t in w.sets[h])
+                            if ks != wk:
+                                viol.append(f"triple-contexts: after op {k} store.triples({x}, {g}) reports {t} in graphs {ks}, "
+                                            f"it is in {wk}")
+                                break
+                elif kind == "ulen":
                     n = len(w.mem)
                     obs.append(str(n))
                     if n != len(U):
                         viol.append(f"union-len: after op {k} len(store) = {n}, the union of the graphs has {len(U)}")
-                else:
-                    got = [_ids(t) for t, _cg in w.mem.triples(tuple(_term(v) for v in x), None)]
-                    obs.append(_fmt(got))
-                    want = {t for t in U if _matches(x, t)}
-                    if len(got) != len(set(got)):
-                        viol.append(f"dup: after op {k} store.triples({x}, None) yields a triple twice")
-                    elif set(got) != want:
-                        viol.append(f"union-pattern: after op {k} store pattern {x} gave {sorted(got)} expected {sorted(want)}")
             except Exception as e:  # noqa: BLE001
                 obs.append("raise:" + type(e).__name__)
                 viol.append(f"raise: union observation {kind} {x} after op {k} raised {type(e).__name__}: {e}")
